@@ -72,7 +72,7 @@ def systematic(tier):
                                               'order': list(order), 'gaps': [gap] * (level + 1), 'future_kind': kind})
     for outcome in ('value', 'exc', 'factory_raises'):
         cases.append({'adapter': 'create_task', 'awaits': [0, 1], 'outcome': outcome, 'others': 1})
-    for scenario in ('run', 'run_raises', 'run_twice', 'cancel_run', 'run_cancel', 'run_raises_twice'):
+    for scenario in ('run', 'run_raises', 'run_twice', 'cancel_run', 'run_cancel', 'run_raises_twice', 'run_interrupted_twice'):
         cases.append({'adapter': 'action', 'scenario': scenario})
     _sys_cache['all'] = cases
     return cases
@@ -82,7 +82,7 @@ def random_case(rng, tier):
     adapter = rng.choice(['plum_kiwi', 'plum_kiwi', 'kiwi', 'rpc_reply', 'rpc_reply', 'create_task', 'action'])
     if adapter == 'action':
         return {'adapter': 'action', 'scenario': rng.choice(['run', 'run_raises', 'run_twice', 'cancel_run', 'run_cancel',
-                                                             'run_raises_twice'])}
+                                                             'run_raises_twice', 'run_interrupted_twice'])}
     if adapter == 'create_task':
         return {'adapter': 'create_task', 'awaits': [rng.choice([0, 0.5, 1]) for _ in range(rng.randint(0, 3))],
                 'outcome': rng.choice(['value', 'value', 'exc', 'factory_raises']), 'others': rng.randint(0, 2)}
@@ -312,6 +312,8 @@ def _run_action(case, plumpy, result, events):
 
     def fn(*args, **kwargs):
         calls.append((args, kwargs))
+        if 'interrupted' in scenario:
+            raise asyncio.CancelledError()  # the function is left by a BaseException that is not an Exception
         if 'raises' in scenario:
             raise boom
         return ('did', args, kwargs)
@@ -325,8 +327,19 @@ def _run_action(case, plumpy, result, events):
         try:
             action.run(*args, **kwargs)
             return None
-        except Exception as exc:  # noqa: BLE001
+        except BaseException as exc:  # noqa: BLE001
             return exc
+
+    if scenario == 'run_interrupted_twice':
+        first = attempt(1)
+        if not isinstance(first, asyncio.CancelledError):
+            result.violate('action_outcome', scenario, f'the interruption of the function did not come out of run(): {first!r}')
+        attempt(2)
+        if len(calls) != 1:
+            result.violate('action_calls', scenario, f'the function was called {len(calls)} times: an action runs its function at most '
+                                                     f'once, also when the first run was interrupted')
+        events.append(('calls', len(calls)))
+        return
 
     if scenario in ('run', 'run_raises', 'run_twice', 'run_cancel', 'run_raises_twice'):
         first = attempt(1, k=2)
